@@ -269,6 +269,20 @@ theorem escByte_eq (c : Byte) :
   · have : ¬ (saveEscaped.contains c = true) := fun hc => h (saveEscaped_only c hc)
     rw [if_neg this, if_neg h, swap_vals.1, swap_vals.2]
 
+/-- the restore side undoes the byte swap of the save side (both pairs are regenerated from the source) -/
+theorem restore_swap_inverts_save : restoreSwapFrom = swapTo ∧ restoreSwapTo = swapFrom := by
+  unfold restoreSwapFrom restoreSwapTo swapTo swapFrom
+  decide
+
+theorem decodeStr_cons_gen (c : Byte) (r : List Byte) : decodeStr (c :: r) =
+    if c = 34 then some ([], r)
+    else if c = 92 then
+      match r with
+      | [] => none
+      | x :: r' => (decodeStr r').map (fun p => (x :: p.1, p.2))
+    else (decodeStr r).map (fun p => ((if c = restoreSwapFrom then restoreSwapTo else c) :: p.1, p.2)) := by
+  rw [decodeStr.eq_def]; rfl
+
 theorem decodeStr_cons (c : Byte) (r : List Byte) : decodeStr (c :: r) =
     if c = 34 then some ([], r)
     else if c = 92 then
@@ -276,7 +290,7 @@ theorem decodeStr_cons (c : Byte) (r : List Byte) : decodeStr (c :: r) =
       | [] => none
       | x :: r' => (decodeStr r').map (fun p => (x :: p.1, p.2))
     else (decodeStr r).map (fun p => ((if c = 13 then 10 else c) :: p.1, p.2)) := by
-  rw [decodeStr.eq_def]; rfl
+  rw [decodeStr_cons_gen, restore_swap_inverts_save.1, restore_swap_inverts_save.2, swap_vals.1, swap_vals.2]
 
 theorem skipStr_cons (c : Byte) (r : List Byte) : skipStr (c :: r) =
     if c = 34 then some r
